@@ -20,46 +20,39 @@ import (
 	"os"
 
 	"github.com/google/gopacket/layers"
+	"github.com/google/gopacket/macs"
 	"github.com/google/gopacket/pcap"
 	"github.com/v-byte-cpu/sx/pkg/packet"
 	"github.com/v-byte-cpu/sx/pkg/scan"
 	"github.com/v-byte-cpu/sx/pkg/scan/arp"
 	"github.com/v-byte-cpu/sx/pkg/scan/icmp"
 	"github.com/v-byte-cpu/sx/pkg/scan/tcp"
-	"github.com/v-byte-cpu/sx/pkg/scan/udp"
 	"golang.org/x/net/bpf"
+	"verifharness/cmd/c03/lib"
 	"verifharness/cmd/c06/fr"
 	"verifharness/hlib"
 )
 
-// wiring of one command as translated by tools/gen/wiring.go (Gen/Wiring.v), evaluated by the check
-type wiring struct {
-	Cmd       string `json:"cmd"`
-	Method    string `json:"method"` // tcp | udp | icmp | arp
-	PF        string `json:"pf"`     // tcp: 512 chars '0'/'1', result filter on 256*NS + byte 13
-	AllFlags  bool   `json:"allflags"`
-	Filter    int    `json:"filter"` // 0 tcp.BPFFilter 1 tcp.SYNACKBPFFilter 2 icmp.BPFFilter 3 arp.BPFFilter
-	Chunked   bool   `json:"chunked"`
-	VPNSource bool   `json:"vpn_source"`
-	VPNMethod bool   `json:"vpn_method"`
-}
-
 type frameObs struct {
-	Frame  string `json:"frame"`
-	Class  string `json:"class"`
-	VM     bool   `json:"vm"`     // the compiled filter accepts the frame
-	Cap    int    `json:"cap"`    // number of bytes the kernel hands over (the program's accept value, at most the frame)
-	Record bool   `json:"record"` // ... and ProcessPacketData emits a record
-	N      int    `json:"n"`
-	Err    string `json:"err,omitempty"`
-	Crash  string `json:"crash,omitempty"`
-	IP     string `json:"ip,omitempty"`
-	Port   int    `json:"port"`
-	Flags  string `json:"flags"`
-	TTL    int    `json:"ttl"`
-	Type   int    `json:"type"`
-	Code   int    `json:"code"`
-	MAC    string `json:"mac,omitempty"`
+	Frame    string `json:"frame"`
+	Class    string `json:"class"`
+	VM       bool   `json:"vm"`     // the compiled filter accepts the frame
+	Cap      int    `json:"cap"`    // number of bytes the kernel hands over (the program's accept value, at most the frame)
+	Record   bool   `json:"record"` // ... and ProcessPacketData emits a record
+	N        int    `json:"n"`
+	Err      string `json:"err,omitempty"`
+	Crash    string `json:"crash,omitempty"`
+	IP       string `json:"ip,omitempty"`
+	Port     int    `json:"port"`
+	Flags    string `json:"flags"`
+	TTL      int    `json:"ttl"`
+	Type     int    `json:"type"`
+	Code     int    `json:"code"`
+	MAC      string `json:"mac,omitempty"`
+	Vendor   string `json:"vendor,omitempty"`
+	VendorOK bool   `json:"vendor_ok"`
+
+	recs []scan.Result
 }
 
 type caseOut struct {
@@ -86,59 +79,6 @@ type marker struct{ i int }
 func (m *marker) String() string               { return "marker" }
 func (m *marker) ID() string                   { return fmt.Sprint("marker", m.i) }
 func (m *marker) MarshalJSON() ([]byte, error) { return []byte("null"), nil }
-
-func buildRange(subnet string, ports [][2]int) *scan.Range {
-	r := &scan.Range{}
-	if subnet != "" {
-		_, n, err := net.ParseCIDR(subnet)
-		if err != nil {
-			panic(err)
-		}
-		r.DstSubnet = n
-	}
-	for _, p := range ports {
-		r.Ports = append(r.Ports, &scan.PortRange{StartPort: uint16(p[0]), EndPort: uint16(p[1])})
-	}
-	return r
-}
-
-func filterText(which int, r *scan.Range) (string, int) {
-	switch which {
-	case 0:
-		return tcp.BPFFilter(r)
-	case 1:
-		return tcp.SYNACKBPFFilter(r)
-	case 2:
-		return icmp.BPFFilter(r)
-	}
-	return arp.BPFFilter(r)
-}
-
-func newProcessor(w wiring, raw bool, rc scan.ResultChan) packet.Processor {
-	switch w.Method {
-	case "tcp":
-		table := w.PF
-		pf := func(pkt *layers.TCP) bool {
-			k := 0
-			for i, b := range []bool{pkt.FIN, pkt.SYN, pkt.RST, pkt.PSH, pkt.ACK, pkt.URG, pkt.ECE, pkt.CWR, pkt.NS} {
-				if b {
-					k |= 1 << uint(i)
-				}
-			}
-			return table[k] == '1'
-		}
-		fl := tcp.EmptyFlags
-		if w.AllFlags {
-			fl = tcp.AllFlags
-		}
-		return tcp.NewScanMethod("tcp", nil, rc, tcp.WithScanVPNmode(raw), tcp.WithPacketFilterFunc(pf), tcp.WithPacketFlagsFunc(fl))
-	case "udp":
-		return udp.NewScanMethod(nil, rc, raw)
-	case "icmp":
-		return icmp.NewScanMethod(nil, rc, raw)
-	}
-	return arp.NewScanMethod(nil, rc)
-}
 
 type runner struct {
 	vm    *bpf.VM
@@ -187,11 +127,21 @@ func (rn *runner) feed(f []byte, class string) frameObs {
 	}()
 	rn.nmark++
 	rn.rc.Put(&marker{rn.nmark})
+	var recs []scan.Result
 	for r := range rn.rc.Chan() {
 		if m, ok := r.(*marker); ok && m.i == rn.nmark {
 			break
 		}
-		o.N++
+		recs = append(recs, r)
+	}
+	o.N = len(recs)
+	o.Record = o.N > 0
+	o.recs = recs // read after the last frame of the case (readRecords), as the real consumer does
+	return o
+}
+
+func readRecords(o *frameObs) {
+	for _, r := range o.recs {
 		switch x := r.(type) {
 		case *tcp.ScanResult:
 			o.IP, o.Port, o.Flags = x.IP, int(x.Port), x.Flags
@@ -201,11 +151,14 @@ func (rn *runner) feed(f []byte, class string) frameObs {
 				o.Type, o.Code = int(x.ICMP.Type), int(x.ICMP.Code)
 			}
 		case *arp.ScanResult:
-			o.IP, o.MAC = x.IP, x.MAC
+			o.IP, o.MAC, o.Vendor = x.IP, x.MAC, x.Vendor
+			o.VendorOK = false
+			if hw, err := net.ParseMAC(x.MAC); err == nil && len(hw) == 6 {
+				o.VendorOK = macs.ValidMACPrefixMap[[3]byte{hw[0], hw[1], hw[2]}] == x.Vendor
+			}
 		}
 	}
-	o.Record = o.N > 0
-	return o
+	o.recs = nil
 }
 
 func compile(raw bool, snap int, text string) (*bpf.VM, error) {
@@ -228,19 +181,19 @@ func compile(raw bool, snap int, text string) (*bpf.VM, error) {
 	return bpf.NewVM(prog)
 }
 
-func runCase(id int, wi int, w wiring, vpn bool, ring int, subnet string, ports [][2]int, frames [][]byte, classes []string) caseOut {
+func runCase(id int, wi int, w lib.Wiring, vpn bool, ring int, subnet string, ports [][2]int, frames [][]byte, classes []string) caseOut {
 	c := caseOut{ID: id, Cmd: w.Cmd, W: wi, VPN: vpn, RawSrc: w.VPNSource && vpn, RawMeth: w.VPNMethod && vpn,
 		Filter: w.Filter, Subnet: subnet, Ports: ports, Ring: ring}
 	if c.Ports == nil {
 		c.Ports = [][2]int{}
 	}
-	r := buildRange(subnet, ports)
+	r := lib.BuildRange(subnet, ports)
 	if r.DstSubnet != nil {
 		ip4 := r.DstSubnet.IP.To4()
 		c.Net = int64(ip4[0])<<24 | int64(ip4[1])<<16 | int64(ip4[2])<<8 | int64(ip4[3])
 		c.Bits, _ = r.DstSubnet.Mask.Size()
 	}
-	c.Text, c.Snap = filterText(w.Filter, r)
+	c.Text, c.Snap = lib.FilterText(w.Filter, r)
 	vm, err := compile(c.RawSrc, c.Snap, c.Text)
 	if err != nil {
 		c.CompErr = err.Error()
@@ -249,12 +202,15 @@ func runCase(id int, wi int, w wiring, vpn bool, ring int, subnet string, ports 
 	ctx, cancel := context.WithCancel(context.Background())
 	defer cancel()
 	rc := scan.NewResultChan(ctx, 64)
-	rn := &runner{vm: vm, p: newProcessor(w, c.RawMeth, rc), rc: rc}
+	rn := &runner{vm: vm, p: lib.NewProcessor(w, c.RawMeth, rc), rc: rc}
 	for i := 0; i < ring; i++ {
 		rn.ring = append(rn.ring, make([]byte, 4096))
 	}
 	for i, f := range frames {
 		c.Frames = append(c.Frames, rn.feed(f, classes[i]))
+	}
+	for i := range c.Frames {
+		readRecords(&c.Frames[i])
 	}
 	return c
 }
@@ -287,7 +243,7 @@ func main() {
 		dumpFilter(lt, 1518, *dump)
 		return
 	}
-	var ws []wiring
+	var ws []lib.Wiring
 	raw, err := os.ReadFile(*wfile)
 	if err != nil {
 		panic(err)
@@ -326,9 +282,9 @@ func main() {
 		wi := i % len(ws)
 		wr := ws[wi]
 		vpn := wr.Method != "arp" && r.Intn(3) == 0
-		g := newGen(r, wr, wr.VPNSource && vpn)
-		subnet, ports := g.randomRange(i)
-		frames, classes := g.frames(*per)
+		g := lib.NewGen(r, wr, wr.VPNSource && vpn)
+		subnet, ports := g.RandomRange(i)
+		frames, classes := g.Frames(*per)
 		w.Put(runCase(i, wi, wr, vpn, []int{0, 0, 1, 1, 2, 3}[r.Intn(6)], subnet, ports, frames, classes))
 	}
 }
